@@ -169,7 +169,13 @@ def _battery(ctx, elf):
     run('sections', lambda: secs.extend(elf.iter_sections()))
     run('num_segments', lambda: elf.num_segments())
     segs = []
-    run('segments', lambda: segs.extend(elf.iter_segments()))
+    # (building a segment object may walk the section headers - the dynamic segment looks for its section: a walk over a claimed count
+    # that skips unreadable headers neither reads nor allocates, so the segment enumeration runs under the line budget as well)
+    ctx.steps_begin(300000 + 2000 * elf.stream_len)
+    try:
+        run('segments', lambda: segs.extend(elf.iter_segments()))
+    finally:
+        ctx.steps_end()
     # the filtered enumerations and the presence questions built on them.  Their time is measured in source lines executed inside
     # the library: a loop over a claimed count that neither reads nor allocates (e.g. 2^64 skipped entries) is cut by this budget
     ctx.steps_begin(300000 + 2000 * elf.stream_len)
